@@ -27,6 +27,7 @@ from hypothesis import strategies as st
 
 from vlib import findings, gen
 from vlib.build import build_obs
+from vlib.util import common_spacing
 from vlib.core import Sub, Violation, Skip, require
 
 PROPERTY = 'C19'
@@ -364,8 +365,8 @@ def general_oracle(spec):
     o = spec['scale'] * o
     try:
         o.gamma_method()
-    except ValueError as ex:
-        if 'common spacing' in str(ex):
+    except Exception:
+        if not common_spacing(o):
             raise Skip('replicas without common spacing (precondition of the analysis)')
         raise
     V, E = float(o.value), float(o.dvalue)
